@@ -460,5 +460,7 @@ pub fn def() -> PropertyDef {
         witnesses: vec![Witness { finding: FINDING_PERMUTE, run: witness_permute }],
         exhaustive: Some(exhaustive),
         exhaustive_in_quick: false,
+        custom: None,
+        custom_replay: None,
     }
 }
